@@ -203,8 +203,8 @@ def check_search(chk, cfg, b, paths, table_term):
             len(g_ct) == 1 and g_ct[0][2] is False and g_ct[0][1][2] == (row_codon, P(2)) and \
             opt_kind(oks[0].ret)[1] == row_amino and L3 in gset(oks[0].guards) and \
             an.is_call(opt_kind(ambs[0].ret)[1][4][0], into_seq, (P(2),)) and not cg(ambs[0])
-        src = xlate.iter_source(oks[0])
-        good = good and src is not None and src == table_term
+        src = xlate.plain_source(cfg, xlate.iter_source(oks[0]))
+        good = good and src is not None and src == xlate.plain_source(cfg, table_term)
     chk.ob("G20/search", what, good,
            "after the length test the function must scan the row table in order, return Ok(row.amino) at the first row with row.codon.contains(codon), "
            "and AmbiguousTranslation(codon) after the loop; found %s" % [p.describe()[:120] for p in paths if p.end != "panic"][:5], b["span"])
